@@ -35,6 +35,17 @@ def conv_ok(letter, v):
     return v[0] == KINDS[letter]
 
 
+def mark_short(ev, supplied, needed):
+    """An under-supplied call (fewer arguments than the function declares) is ill-formed: it ends in an error
+    whichever way the arguments it does have are treated. The reference keeps modelling the lazy, in-order
+    extraction, but records where in the log the call started so that an oracle can accept any evaluation
+    strategy that is 'at most once, in source order' for the rest (checking the arity first, for instance)."""
+    if supplied < needed:
+        if not hasattr(ev, 'short_calls'):
+            ev.short_calls = []
+        ev.short_calls.append(len(ev.log))
+
+
 def make_host():
     """name -> callable(ev, recv, arg_exprs, env) evaluating lazily like the extractors do."""
     host = {}
@@ -45,6 +56,7 @@ def make_host():
         def f(ev, recv, arg_exprs, env):
             got = []
             idx = 0
+            mark_short(ev, len(arg_exprs), len(params) + (1 if flavour in ('this', 'thisopt') and recv is None else 0))
             if flavour in ('this', 'thisopt'):
                 if recv is not None:
                     tv = recv
@@ -88,6 +100,7 @@ def make_host():
         style the next unconsumed argument."""
         def f(ev, recv, arg_exprs, env):
             got, idx = [], 0
+            mark_short(ev, len(arg_exprs), len(before) + len(after) + (1 if recv is None else 0))
 
             def take(letter):
                 nonlocal idx
@@ -131,6 +144,7 @@ def make_host():
 
     def ma(ev, recv, arg_exprs, env):
         idx = 0
+        mark_short(ev, len(arg_exprs), 1 if recv is None else 0)
         if recv is not None:
             tv = recv
             rest = arg_exprs
@@ -145,6 +159,7 @@ def make_host():
     host['ma'] = ma
 
     def ex1(ev, recv, arg_exprs, env):
+        mark_short(ev, len(arg_exprs), 1)
         if not arg_exprs:
             raise CelError('arg_count', 'missing argument')
         v = ev.ev(arg_exprs[0], env)
@@ -153,6 +168,7 @@ def make_host():
     host['ex1'] = ex1
 
     def ex0(ev, recv, arg_exprs, env):
+        mark_short(ev, len(arg_exprs), 1)
         if not arg_exprs:
             raise CelError('arg_count', 'missing argument')
         ev.log.append(["ex0"])
@@ -160,6 +176,7 @@ def make_host():
     host['ex0'] = ex0
 
     def id1(ev, recv, arg_exprs, env):
+        mark_short(ev, len(arg_exprs), 1)
         if not arg_exprs:
             raise CelError('arg_count', 'missing argument')
         if arg_exprs[0][0] != 'id':
@@ -169,6 +186,7 @@ def make_host():
     host['id1'] = id1
 
     def id2(ev, recv, arg_exprs, env):
+        mark_short(ev, len(arg_exprs), 2)
         if not arg_exprs:
             raise CelError('arg_count', 'missing argument')
         if arg_exprs[0][0] != 'id':
@@ -181,6 +199,7 @@ def make_host():
     host['id2'] = id2
 
     def vid(ev, recv, arg_exprs, env):
+        mark_short(ev, len(arg_exprs), 2)
         if not arg_exprs:
             raise CelError('arg_count', 'missing argument')
         v = ev.ev(arg_exprs[0], env)
